@@ -14,7 +14,7 @@ TRUST = ('trusted base: simulated peers and fault layer; the reference rendering
 TECHNIQUE = 'deterministic simulation, differential oracle across option sets, handshake-stage fault injection'
 LEVEL = 'exploration'
 BUDGET = {'quick': 200, 'thorough': 2000}
-NCASES = {'quick': 500, 'thorough': 9000}
+NCASES = {'quick': 1500, 'thorough': 9000}
 RULE = ('three case kinds. complete: a peer whose lists are built from database names classed fail / warn / clean in seeded order, audited with the default options and '
         'with 3 seeded option sets out of subsets of {-b,-v,-n,-l warn,-l fail,-j,-jj,-2,NO_COLOR}. broken: C09 archetypes with a fault placed on the first connection '
         'before the algorithm lists are complete (refuse, black-hole, truncate/stall/reset at an offset, garbage, wrong first message, SSH-1 bad CRC) x option sets. '
